@@ -106,7 +106,7 @@ fn dispatch(name: &str, a: &[i64]) -> Option<Vec<i64>> {
     }
     #[cfg(feature = "p_knuthplass")]
     {
-        // kp_pass_<KINDS> amounts.. line_width tolerance line_penalty adj_demerits rs_w rs_st rs_sh rs_order [looseness]
+        // kp_pass_<KINDS> amounts.. line_width tolerance line_penalty adj_demerits rs_w rs_st rs_sh rs_order [looseness [ls_w ls_st ls_sh]]
         // KINDS over R (rule: w), G/F (glue finite/fil: w st sh), K/k (explicit/font kern: w), P (penalty: p)
         if let Some(kinds) = name.strip_prefix("kp_pass_") {
             use boxworks::ds;
@@ -171,7 +171,13 @@ fn dispatch(name: &str, a: &[i64]) -> Option<Vec<i64>> {
                 final_widow_penalty: 0,
                 hyphen_penalty: 0,
                 inter_line_penalty: 0,
-                left_skip: common::Glue::ZERO,
+                left_skip: common::Glue {
+                    width: sc(a.get(k + 9).copied().unwrap_or(0)),
+                    stretch: sc(a.get(k + 10).copied().unwrap_or(0)),
+                    stretch_order: common::GlueOrder::Normal,
+                    shrink: sc(a.get(k + 11).copied().unwrap_or(0)),
+                    shrink_order: common::GlueOrder::Normal,
+                },
                 line_penalty,
                 looseness: a.get(k + 8).copied().unwrap_or(0) as i32,
                 par_fill_skip: common::Glue::ZERO,
